@@ -23,8 +23,11 @@ import time
 
 VERIF = os.path.dirname(os.path.abspath(__file__))
 HARNESS = os.path.join(VERIF, "harness")
-BUILD = os.path.join(VERIF, ".build")
-REPO = "/repo"
+REPO = os.environ.get("VERIF_REPO", "/repo")
+# VERIF_REPO=<scratch copy> (self-test with mutants only): build against that
+# copy through a -modfile, with separate build output and evidence.
+MUT = REPO != "/repo"
+BUILD = os.path.join(VERIF, ".build-mut" if MUT else ".build")
 
 ENV = dict(os.environ)
 ENV.update({
@@ -46,6 +49,14 @@ def build(flavour):
     os.makedirs(BUILD, exist_ok=True)
     out = os.path.join(BUILD, "vworker-" + flavour)
     cmd = ["go", "build", "-tags", "verif", "-o", out]
+    if MUT:
+        mf = os.path.join(BUILD, "go.mod")
+        with open(os.path.join(HARNESS, "go.mod")) as f:
+            txt = f.read().replace("=> /repo", "=> " + REPO)
+        with open(mf, "w") as f:
+            f.write(txt)
+        shutil.copy(os.path.join(HARNESS, "go.sum"), os.path.join(BUILD, "go.sum"))
+        cmd += ["-modfile", mf]
     if flavour == "race":
         cmd.insert(2, "-race")
     cmd.append("./cmd/vworker")
@@ -197,7 +208,7 @@ def run_leg(prop, tier, seed, leg, bins, logdir):
 
 
 def write_replay(prop, v, legname):
-    d = os.path.join(VERIF, "replays", prop)
+    d = os.path.join(BUILD if MUT else VERIF, "replays", prop)
     os.makedirs(d, exist_ok=True)
     body = json.dumps({"property": prop, "sig": v["sig"], "detail": v["detail"], "leg": legname, "case": v.get("case")}, indent=1, sort_keys=True, default=str)
     h = hashlib.sha1((v["sig"] + json.dumps(v.get("case"), sort_keys=True, default=str)).encode()).hexdigest()[:12]
@@ -214,7 +225,7 @@ def check(prop, tier):
     logdir = os.path.join(BUILD, "logs", prop)
     shutil.rmtree(logdir, ignore_errors=True)
     os.makedirs(logdir, exist_ok=True)
-    evidence_path = os.path.join(VERIF, "evidence", prop + ".json")
+    evidence_path = os.path.join(BUILD if MUT else VERIF, "evidence", prop + ".json")
     os.makedirs(os.path.dirname(evidence_path), exist_ok=True)
 
     legs = [l for l in plan["legs"] if tier in l.get("tiers", ("quick", "thorough"))]
